@@ -1,4 +1,14 @@
 #!/bin/bash
-# run all 20 quick checks in parallel; print last line of each
+# run all 20 quick checks in parallel; print the summary line of each and a verdict line
 cd /verif
-for i in $(seq -w 1 20); do ( /venv/bin/python -m lsa C$i "$@" 2>&1 | tail -1 ) & done; wait
+tmp=$(mktemp -d /tmp/lsa-runall-XXXX)
+for i in $(seq -w 1 20); do ( /venv/bin/python -m lsa C$i "$@" > $tmp/C$i.log 2>&1; echo $? > $tmp/C$i.rc ) & done; wait
+bad=0
+for i in $(seq -w 1 20); do
+  tail -1 $tmp/C$i.log
+  rc=$(cat $tmp/C$i.rc)
+  if [ "$rc" != "0" ] || grep -q "^VIOLATION\|ANALYSIS-ERROR" $tmp/C$i.log; then bad=$((bad+1)); echo "  ^^^ C$i exit $rc"; grep "^VIOLATION\|ANALYSIS-ERROR" $tmp/C$i.log | head -3; fi
+done
+grep -h "^KNOWN-FINDING" $tmp/*.log | cut -c1-160
+echo "RUN-ALL: $((20-bad)) of 20 checks exit 0 without a violation"
+rm -rf $tmp
